@@ -499,7 +499,19 @@ class Normalizer:
         return f"{fn}({', '.join(args + kws)})"
 
     def class_set(self, e: ast.expr, node: Node, bound: t.Dict[str, str], depth: int) -> str:
-        elts = e.elts if isinstance(e, ast.Tuple) else [e]
+        elts = list(e.elts) if isinstance(e, ast.Tuple) else [e]
+        # a module-level constant holding the tuple of classes (`_STRING_LIKE = (str, bytes, bytearray)`) stands for its members
+        for _round in range(3):
+            flat: t.List[ast.expr] = []
+            for x in elts:
+                v = self.func.module.assign_values.get(x.id) if isinstance(x, ast.Name) and not self.cfg.reaching().is_local(x.id) else None
+                if isinstance(v, ast.Tuple) and v.elts and all(isinstance(y, (ast.Name, ast.Attribute)) for y in v.elts):
+                    flat.extend(v.elts)
+                else:
+                    flat.append(x)
+            if len(flat) == len(elts):
+                break
+            elts = flat
         names = sorted({_canon_class(self.expr(x, node, bound, depth + 1)) for x in elts})
         return '{' + ', '.join(names) + '}'
 
@@ -674,6 +686,25 @@ class Normalizer:
         if not isinstance(fn, ast.FunctionDef) or len(f.params) != 1:
             return None
         body = [s for s in fn.body if not (isinstance(s, ast.Expr) and isinstance(s.value, ast.Constant))]
+        if len(body) > 1 and isinstance(body[-1], ast.Return) and body[-1].value is not None \
+                and all(isinstance(s, ast.Assign) and len(s.targets) == 1 and isinstance(s.targets[0], ast.Name) for s in body[:-1]):
+            # temporaries assigned once (`no_default = A and B` / `return not no_default`): substituted into the returned expression
+            import copy as _copy
+            names = [t.cast(ast.Name, t.cast(ast.Assign, s).targets[0]).id for s in body[:-1]]
+            if len(set(names)) == len(names):
+                env_: t.Dict[str, ast.expr] = {}
+
+                class _Sub(ast.NodeTransformer):
+                    def visit_Name(self, node: ast.Name) -> ast.AST:
+                        if isinstance(node.ctx, ast.Load) and node.id in env_:
+                            return _copy.deepcopy(env_[node.id])
+                        return node
+                for s in body[:-1]:
+                    env_[t.cast(ast.Name, t.cast(ast.Assign, s).targets[0]).id] = t.cast(ast.expr, _Sub().visit(_copy.deepcopy(t.cast(ast.Assign, s).value)))
+                ret = ast.Return(value=t.cast(ast.expr, _Sub().visit(_copy.deepcopy(body[-1].value))))
+                ast.copy_location(ret, body[-1])
+                ast.fix_missing_locations(ret)
+                body = [ret]
         if len(body) != 1 or not isinstance(body[0], ast.Return) or body[0].value is None:
             return None
         if any(isinstance(x, ast.Call) for x in ast.walk(body[0].value)):
